@@ -239,7 +239,7 @@ func runRun(sc fwdRunScenario) (res fwdRunResult) {
 		wg.Add(1)
 		go func() {
 			defer wg.Done()
-			full, ch, err := read(infl, time.Duration(sc.TimeoutMs+1500)*time.Millisecond)
+			full, ch, err := read(infl, time.Duration(max(sc.TimeoutMs, sc.OriginAfterMs)+1500)*time.Millisecond)
 			if err == nil {
 				res.RespFull, res.RespClose = full, ch
 			}
@@ -250,7 +250,7 @@ func runRun(sc fwdRunScenario) (res fwdRunResult) {
 		res.ElapsedMs = time.Since(t0).Milliseconds()
 		res.ErrCtx = errors.Is(err, context.Canceled)
 		res.ErrText = fmt.Sprint(err)
-	case <-time.After(time.Duration(sc.TimeoutMs+3000) * time.Millisecond):
+	case <-time.After(time.Duration(max(sc.TimeoutMs, sc.OriginAfterMs)+3000) * time.Millisecond):
 		res.ElapsedMs = time.Since(t0).Milliseconds()
 		res.ErrText = "Run did not return"
 	}
@@ -310,6 +310,11 @@ func genRunScenarios(tier string) []fwdRunScenario {
 	out = append(out,
 		fwdRunScenario{Name: "run/400/two-listeners/inflight-answered+idle", TimeoutMs: 400, Inflight: true, OriginAfterMs: 100, Idle: true, TwoListeners: true},
 		fwdRunScenario{Name: "run/400/two-listeners/idle-late-send", TimeoutMs: 400, Idle: true, LateSend: true, OriginAfterMs: -1, TwoListeners: true})
+	// a shutdown timeout of zero means no limit: the drain is waited for, however long the origin takes
+	out = append(out,
+		fwdRunScenario{Name: "run/0/inflight-answered", TimeoutMs: 0, Inflight: true, OriginAfterMs: 250},
+		fwdRunScenario{Name: "run/0/none", TimeoutMs: 0, OriginAfterMs: -1},
+		fwdRunScenario{Name: "run/0/idle-late-send", TimeoutMs: 0, Idle: true, LateSend: true, OriginAfterMs: -1})
 	if tier == "thorough" {
 		add(250)
 		add(700)
